@@ -51,6 +51,28 @@ def check(ctx, rep):
     from rules.props import c04 as _c04
     rep.rule('R13.h', 'adaptors that keep clones of the task waker (flatten_unordered, buffer_unordered, select_all, ..) are used only where tabled', floor=1)
     _c04.check_waker_retaining_adaptors(rep, 'R13.h', core)
+    # ---- R13.i: what is still QUEUED when a command, a context or the core goes away (a task that was spawned but never started, an
+    # effect nobody collected, a waker) is released with it only because of how the queue implementation treats its backlog: crossbeam
+    # and futures channels drop every queued message when the receiving side goes; other implementations (async-channel keeps its queue
+    # until the last SENDER goes — and a queued task that captured its CommandContext owns such a sender: a cycle nothing breaks) do not.
+    # Every queue endpoint held by a runtime type is one of the implementations whose behaviour was confirmed (seeded: the command's
+    # spawn queue moved to async_channel "as a first step towards bounded spawn").
+    rep.rule('R13.i', 'every queue endpoint held by a runtime type is a tabled channel implementation (backlog dropped with the receiving side)', floor=20)
+    QUEUE_OK = ('crossbeam_channel::', 'futures_channel::', 'crux_core::capability::channel::')
+    for crate_ in (core, time):
+        for name_, adt_ in sorted(crate_.adts.items()):
+            if '::testing' in name_ or '::tests' in name_:
+                continue
+            for v_ in adt_.get('variants', []):
+                for fl_ in v_.get('fields', []):
+                    ty_ = fl_.get('ty') or ''
+                    heads = re.findall(r'([A-Za-z_][\w:]*?)(?:Unbounded|Bounded)?(?:Sender|Receiver)<', ty_)
+                    for h_ in heads:
+                        key_ = '%s.%s%s' % (name_, (v_.get('name') + '.') if adt_.get('kind') == 'enum' else '', fl_.get('name'))
+                        rep.expect('R13.i', h_.startswith(QUEUE_OK), key_, 'endpoint of %s' % h_.rstrip(':'),
+                                   'field %s : %s is an endpoint of a queue implementation outside the table %s: whether its backlog is dropped when the '
+                                   'receiving side goes is not confirmed (async-channel, for one, keeps queued items until the last sender goes, '
+                                   'and a queued task can own a sender of its own queue)' % (key_, ty_[:120], list(QUEUE_OK)))
     # ---- R13.a
     f = c06.method(core, 'crux_core::capability::executor::QueuingExecutor', 'run_task')
     if f is None:
